@@ -6,10 +6,10 @@ set_option maxHeartbeats 4000000
 
 /-- program counters a call starts at -/
 def Entry : Pc → Prop
-  | .setCalled | .rejected | .waitCalled | .testCalled | .resetCalled => True
-  | .idle | .setCS | .setErrCS | .setErrDone | .setCbCS | .setStCS | .setBcCS | .setRelCS | .setDone | .waitLdCS | .waitCS
-  | .waitEnq | .waiting | .reW | .woken | .reR | .passCS | .waitDone | .testDone0 | .testDone1 | .resetCS | .resetStCS
-  | .resetDone => False
+  | .setCalled | .rejected | .waitCalled | .testCalled | .resetCalled | .freeCalled => True
+  | .idle | .setCS | .setErrCS | .setErrDone | .setCbCS | .setCbRun | .setStCS | .setBcCS | .setRelCS | .setDone | .waitLdCS
+  | .waitCS | .waitEnq | .waiting | .reW | .woken | .reR | .passCS | .waitDone | .testDone0 | .testDone1 | .resetCS | .resetStCS
+  | .resetDone | .freeCS | .freed => False
 
 /-- frame lemma for calls -/
 theorem inv_enter (s : St) (a : Actor) (p : Pc) (g : Actor → Val) (h : Inv s) (h0 : s.pc a = .idle) (h1 : Entry p)
@@ -29,5 +29,6 @@ theorem inv_stepCall (s s' : St) (a : Actor) (op : Op) (v : Val) (h : Inv s) (hs
       · simpa [hk] using inv_enter s a .waitCalled s.arg h h0 trivial (by simp [hk])
     · exact inv_enter s a .testCalled s.arg h h0 trivial (by simp)
     · exact inv_enter s a .resetCalled s.arg h h0 trivial (by simp)
+    · exact inv_enter s a .freeCalled s.arg h h0 trivial (by simp)
 
 end ArgoVerif.Model.Future
